@@ -16,14 +16,19 @@ RULE = (
     "{raise ENOSPC, raise after half write, die before, die after, die with torn write} the real code runs again; oracle from "
     "a FRESH Context: every type reported stored loads completely and equals the reference, raise-faults surface as an "
     "exception (or everything requested ended up stored and valid), an identical retry succeeds without manual cleanup and "
-    "leaves everything valid; thorough: a second fault during the retry. non-trivial: every (scenario, k, variant) is a distinct fault."
+    "leaves everything valid; thorough: a second fault during the retry. non-trivial: every (scenario, k, variant) is a distinct fault. "
+    "Second fault family (the statement's 'exception in any plugin or saver'): for every (stage, chunk) position of C06's cell catalogue "
+    "(plugin compute of source / mid / multi-output / exhaust plugins, chunk write of a target or side-output saver, chunk read of a loader, "
+    "consumer abandoning the iterator after k chunks) x {single-thread, threaded eager / lazy / worker pool} the real get_iter runs under the "
+    "controlled scheduler over every thread schedule with <= B delays, and after the call returned a FRESH context must find every type it "
+    "reports stored complete and equal to the whole-run reference."
 )
 ASSUMPTIONS = [
     "process death = no further file-system operation happens; completed operations persist (no power-loss reordering)",
     "forked / multi-process savers are exercised in-process only",
     "threaded scenarios run under two deterministic schedules (keep running the current thread / always switch to the newest enabled thread), so operation numbering is stable within a scenario; schedule x fault combinations only in the thorough tier (delay bound 1)",
 ]
-BOUNDS = {"quick": "22 scenarios (two with a second writable frontend), all single faults + retry", "thorough": "22 scenarios, single faults + retry + second fault during retry (every k2 for a rotating slice of k); schedule exploration of pool/threaded saving with one fault"}
+BOUNDS = {"quick": "22 scenarios (two with a second writable frontend), all single faults + retry", "quick_pipe": "74 (stage, chunk) exception / abandon cells x processors, delay bound 0 (a rotating third at bound 1); thorough: bound 1 for all", "thorough": "22 scenarios, single faults + retry + second fault during retry (every k2 for a rotating slice of k); schedule exploration of pool/threaded saving with one fault"}
 RUN = "0"
 
 IV = ((0, 1), (2, 3), (4, 5), (5, 6))
